@@ -625,3 +625,27 @@ func VerifC16_Algebra(cs int) {
 		VsAssert("only-keeps-the-order", no == all)
 	}
 }
+
+var vC16Leads = []string{"\xc3", "\xc4", "\xce", "\xcf", "\xd0", "\xc5"}
+
+// VerifC16_OperatorsUnicode: the operator laws on text outside ASCII: each operand is a two-byte
+// character of one block (lead byte by case: Latin-1 supplement, Latin extended-A with dotted / dotless
+// i, Latin extended-A second half, Greek with the three sigmas, Cyrillic; second byte 0x80..0xbf by
+// choice: the case mapping of a multi-byte character is not symbolic in the engine) optionally followed
+// by a letter. cs%6: block; cs/6%2: with a trailing "s".
+func VerifC16_OperatorsUnicode(cs int) {
+	tail := []string{"", "s"}[cs/6%2]
+	second := func(name string) string { return string([]byte{byte(0x80 + VsChoose(name, 64))}) }
+	l := vC16Leads[cs%6] + second("l") + tail
+	r := vC16Leads[cs%6] + second("r") + tail
+	v := vC16All(&ConstantExpr{Value: l}, &ConstantExpr{Value: r})
+	VsObserve(l)
+	VsObserve(r)
+	VsObserve(v.eq)
+	VsObserve(v.lt)
+	VsReach("unicode-operators-applied")
+	vC16Laws(v)
+	// the same text is equal to itself, also with surrounding blanks
+	same := vC16All(&ConstantExpr{Value: l}, &ConstantExpr{Value: " " + l + "\t"})
+	VsAssert("text-is-equal-to-itself-with-blanks-around", same.eq && !same.lt && !same.gt)
+}
